@@ -109,7 +109,7 @@ pub fn trial_opts(net: &mut Net, b: u64, kind: &'static str, writer: usize, read
     let mut second = "";
     if b % 3 == 1 && (kind.starts_with("announce") || st.kind == "signed") && !polled {
         let mut o = NodeOpts::client(*waddr.ip(), &net.boot);
-        o.port = 6999;
+        o.port = 7000 + (b % 50000) as u16;
         let w2 = net.sim.add_node(o);
         net.clients.push(w2);
         net.sim.run_for(3000);
@@ -175,7 +175,7 @@ pub fn trial_opts(net: &mut Net, b: u64, kind: &'static str, writer: usize, read
         "live_ackers_other_than_reader": acks.iter().filter(|a| alive.contains(a) && **a != raddr).count(),
         "crashed": crash.iter().map(|&c| net.sim.nodes[c].addr.to_string()).collect::<Vec<_>>(),
         "reader_knows_live": knows_live, "get_done": done, "found": found(&get, &st.expect), "items": get.items.len(),
-        "concurrent": format!("{concurrent}{second}"), "delay_ms": delay_ms, "panicked": net.sim.nodes.iter().any(|n| n.panicked)})
+        "concurrent": concurrent, "second_announcer": second, "delay_ms": delay_ms, "panicked": net.sim.nodes.iter().any(|n| n.panicked)})
 }
 
 pub fn run(args: &Args) -> i32 {
@@ -188,7 +188,7 @@ pub fn run(args: &Args) -> i32 {
     let mut samples = vec![];
     let only = args.get("only").and_then(|x| x.parse::<u64>().ok());
     let sizes: Vec<usize> = if thorough { vec![1, 2, 3, 4, 5, 6, 8, 10, 13, 16, 20] } else { vec![1, 2, 3, 5, 10, 20] };
-    let reps = if thorough { 40 } else { 7 };
+    let reps = if thorough { 240 } else { 7 };
     for (si, &s) in sizes.iter().enumerate() {
         for rep in 0..reps {
             let spec = NetSpec { servers: s, clients: [0, 2, 5, 1][(si + rep) % 4].min(30), plan: if (si + rep) % 3 == 1 { "public".into() } else { "private".into() }, join: if rep % 2 == 0 { "sequential".into() } else { "simultaneous".into() }, dead_bootstrap: 0, seed: seed ^ ((si * 1000 + rep) as u64) };
@@ -258,7 +258,7 @@ pub fn run(args: &Args) -> i32 {
         let spec = NetSpec { servers: s, clients: 10, plan: "private".into(), join: "sequential".into(), dead_bootstrap: 0, seed: seed ^ (s as u64 * 17) };
         let mut net = build(&spec);
         let all: Vec<usize> = net.servers.iter().chain(net.clients.iter()).cloned().collect();
-        let trials = if thorough { 20 } else { 8 };
+        let trials = if thorough { 60 } else { 8 };
         let mut ok = 0;
         for i in 0..trials {
             let writer = *rng.pick(&all);
